@@ -252,8 +252,11 @@ Definition contents_of (d : doc) (k : lib) : list content :=
   map snd (filter (fun p => lib_eqb (fst p) k) d).
 Definition items_of (d : doc) (k : lib) : list item :=
   flat_map (fun c => match c with CItems l => l | _ => [] end) (contents_of d k).
+(* since the /repo fix of round 8 the nodes of ALL <library_nodes> elements form one pool with one
+   retry loop (before, every element had its own loop and a node could not instantiate a node of
+   a later element) *)
 Definition node_groups_of (d : doc) : list (list tnode) :=
-  flat_map (fun c => match c with CNodes l => [l] | _ => [] end) (contents_of d LNodes).
+  [flat_map (fun c => match c with CNodes l => l | _ => [] end) (contents_of d LNodes)].
 Definition scenes_of (d : doc) : list scene :=
   flat_map (fun c => match c with CScenes l => l | _ => [] end) (contents_of d LScenes).
 Definition default_of (d : doc) : option ref :=
